@@ -23,6 +23,10 @@ PARTIAL = ["coeff normalisation is specified (and modelled) for the autocorrelat
            "other calls, and every call of a history on a record longer than 600 samples or not ending with CORRELATION, against the "
            "definition evaluated in floating point (oracle) only; corrmtx methods other than 'autocorrelation' inside a history are "
            "checked for shape, repeatability and non-aliasing only (their entries are checked by the single-call corrmtx kind)",
+           "nearly equal pairs (near kinds): equal lengths only; eps below about 1e-12 (and a one-ulp change of one sample) is not "
+           "resolved by the floating-point result itself - those cases only check that the result stays within 3e-13 of the definition; "
+           "the corrmtx functions take one record: nearly equal records reach them only through the call sequences (seq:y=near), "
+           "judged at 1e-10",
            "error paths are outside the statement; a few rejected calls (CORRELATION maxlags >= N, xcorr unequal lengths or "
            "maxlags > N, corrmtx unknown method) are compared with the model's error kind only.  xcorr(maxlags=N) passes the "
            "code's own assertion and then raises IndexError: not generated"]
@@ -65,7 +69,20 @@ RULE = ("random real/complex data (dyadic rationals, integers, constants), equal
         "of the other type; EVERY call is judged against the definition (max-norm and per lag), arrays returned earlier must keep the "
         "bytes the caller left in them after every later call and every later edit, editing a result must not change any input record "
         "or argument, no call may modify its arguments, a repeated call on unchanged values must repeat its numbers, and in a closing "
-        "round all results are overwritten in place and every call of the history is made and judged once more")
+        "round all results are overwritten in place and every call of the history is made and judged once more; "
+        "NEARLY EQUAL pairs (kinds near / near_o, tags near:*; quick 231 pairs + 66 equal-valued, thorough 770 + 220 per round; N = 2..16 "
+        "(quick) / 2..40, one in ten N in {64, 129, 256, 300, 513, 1000}): y = x (1 + eps) (one gain / one per sample), x + noise at "
+        "eps of each sample / of the rms, a float32 round trip of x, x with ONE sample moved by one ulp / by eps, x e^{i eps} (one phase / "
+        "one per sample), x delayed by one sample (with and without wrap-around) on a record drifting by eps per sample; eps in {1e-3, "
+        "1e-4, 1e-5, 3e-6, 1e-6, ..., 1e-12} (offset rotating with the run); mode x eps x function (xcorr 2/3, CORRELATION 1/3) x norm "
+        "(biased, unbiased, None) x argument order (x, y) / (y, x) by independent moduli, dyadic and generic doubles (noise, tone, trend, "
+        "per-sample dynamic range 2^-20..2^20), real and complex; every lag compared with the definition evaluated in EXACT integer / "
+        "rational arithmetic on the doubles (rounded once) at 3e-13 of sum_n |x[n+k]| |y[n]| / divisor (xcorr on N > 40: of "
+        "||x|| ||y|| / divisor), the asymmetry r[k] - conj(r[-k]) of the two-sided variant against its exact value at the same "
+        "tolerance, xcorr against CORRELATION at 6e-13, and the exact Lean model at rtol 1e-12 up to N = 300; y EQUAL IN VALUE to x but "
+        "another object (copy, view of x's memory, x itself passed as y, read-only view, stride 3, negative stride, complex dtype with "
+        "zero imaginary part, list, float32, int64, swapped byte order): the autocorrelation values, all four norms; 24 (thorough 72 "
+        "per round) call sequences whose second record is the first with a per-sample gain mismatch of 1e-6 .. 1e-8 (seq:y=near)")
 
 # kinds that only compare the error kind of a rejected call with the model: no amplitude / stride variants
 NO_VARY = {"corr_err", "xcorr_err", "corrmtx_err"}
@@ -1070,16 +1087,443 @@ if __import__("os").environ.get("VERIF_C09_STATS"):
         _SEQ_STATS["n"], _SEQ_STATS["max"], _SEQ_STATS["lag"])))
 
 
-def _seq_one(nrng, i, N, core, use_model=True):
+# --------------------------------------------------------------------------------------------------
+# NEARLY EQUAL pairs (kinds "near" / "near_o", tags near:*).  Every pair (x, y) of the kinds above is either a pair of
+# independent records or y is x / an exact copy of x.  In between lies what a two-channel recording, a stored-and-reloaded
+# record or a lightly processed copy gives: y = x (1 + eps) (gain mismatch, one factor or one per sample), y = x + noise at
+# relative level eps (per sample / of the rms), y = a float32 round trip of x, y = x with ONE sample moved by one ulp or by
+# eps, y = x e^{i eps} (one phase or one per sample), y = x delayed by one sample on a slowly drifting record; eps from 1e-3
+# down to 1e-12.  An implementation that decides "this is an autocorrelation" (or looks a result up in a memo) by comparing
+# VALUES with a tolerance returns r_xx for such a pair: wrong by eps * r_xx[k], and Hermitian in the lag although
+# r_xy[k] - conj(r_xy[-k]) is of relative size eps.  The max-norm / per-lag tolerances above (1e-10) cannot resolve
+# eps < 1e-9, hence:
+#   * the defined value of every lag is computed EXACTLY (every double is a dyadic rational: the lag sums are taken in
+#     Python integers, divided as Fractions, rounded once) - no reference round-off at any eps;
+#   * each lag is compared with it at TOL_NEAR relative to B[k] = sum_n |x[n+k]| |y[n]| / divisor (>= |e[k]|; the a-priori
+#     error bound of a summed lag is N u B[k]), for xcorr on records longer than NEAR_DIRECT_N relative to max(B[k], G[k])
+#     = G[k] = ||x|| ||y|| / divisor (scipy.signal.correlate may take the FFT there: round-off u G at every lag);
+#   * the two-sided variant's asymmetry A[k] = r[k] - conj(r[-k]), k = 1..maxlags, is compared with the exact A[k] at
+#     2 * TOL_NEAR on the same scale (exactly zero for an autocorrelation, of relative size eps for these pairs);
+#   * xcorr against CORRELATION at the non-negative lags at 2 * TOL_NEAR;
+#   * the exact Lean model (Q mode takes any double as the rational it is) through the runner at rtol 1e-12 (kind "near").
+# Same kinds, "near" = "equal": y EQUAL IN VALUE to x but another object - a copy, a view of x's memory, x itself passed as
+# y, a read-only view, another stride, another dtype (complex with zero imaginary part, float32 / int64 / list where the
+# values are exact in it, swapped byte order): the result must be the autocorrelation (all four norms, 'coeff' included).
+# Measured on the unchanged code (/tmp/c09_near_probe.py: generator seeds 0..4 quick + 3 thorough rounds, all variants of the
+# runner included; 290 000 lag comparisons):
+#   CORRELATION  worst |r-e| / B[k]                                   = 5.2e-15   (N = 1000; 2.4e-15 up to N = 40)
+#   xcorr        worst |r-e| / B[k] (N <= 40) = 9.2e-16;   worst |r-e| / G[k] (N = 64 .. 1000) = 7.8e-16
+#   asymmetry    worst |A-A_exact| / (sum of the two lags' scales)    = 4.9e-16
+#   xcorr vs CORRELATION worst |diff| / scale                         = 3.0e-15   (allowed 2 * TOL_NEAR)
+# TOL_NEAR = 3e-13 leaves a margin of 57x (CORRELATION), 300x (xcorr), 200x (xcorr vs CORRELATION) and resolves eps >= 1e-12 at
+# lag 0 of a gain / phase mismatch (B[0] = G[0] ~ r_xx[0]).
+TOL_NEAR = 3e-13
+NEAR_DIRECT_N = 40
+NEAR_MODES = ["gain", "gainv", "relnoise", "absnoise", "f32", "ulp", "one", "phase", "phasev", "shift", "roll"]
+NEAR_EPS = [1e-3, 1e-4, 1e-5, 3e-6, 1e-6, 1e-7, 1e-8, 1e-9, 1e-10, 1e-11, 1e-12]
+# y equal in value to x, another object.  "view" / "same" / "ro" share x's memory
+NEAR_OBJ = ["copy", "view", "same", "ro", "strided", "neg", "cplx", "list", "f32", "int", "swapped"]
+_SHARED = ("view", "same", "ro")
+_NEAR_STATS = {"corr": 0.0, "xcorr": 0.0, "xcorr_long": 0.0, "asym": 0.0, "xc": 0.0, "n": 0}
+
+
+def _ints(v):
+    """real double array -> (object array of Python ints m, shift s): v[n] = m[n] / 2^s exactly"""
+    from fractions import Fraction
+    fr = [Fraction(float(t)) for t in v]
+    s = max([f.denominator.bit_length() - 1 for f in fr] + [0])
+    return np.array([f.numerator * ((1 << s) // f.denominator) for f in fr] + [0], dtype=object)[:-1], s
+
+
+def _exact_lags(x, y, ks, norm):
+    """the DEFINED value at each lag of ks (k >= 0: r_xy[k] = sum_n x[n+k] conj(y[n]) / divisor; k < 0: conj(r_yx[-k])),
+    computed exactly and rounded once to a complex double.  norm 'coeff' (autocorrelation only): divisor sum |x|^2"""
+    from fractions import Fraction
+    x = np.asarray(x)
+    y = np.asarray(y)
+    N = len(x)
+    if len(y) != N:
+        raise RuntimeError("harness: the exact reference is for equal lengths")
+    xc = x.astype(complex)
+    yc = y.astype(complex)
+    a, sa = _ints(xc.real)
+    b, sb = _ints(xc.imag)
+    c, sc = _ints(yc.real)
+    d, sd = _ints(yc.imag)
+    sx, sy = max(sa, sb), max(sc, sd)
+    a, b = a * (1 << (sx - sa)), b * (1 << (sx - sb))
+    c, d = c * (1 << (sy - sc)), d * (1 << (sy - sd))
+    den = 1 << (sx + sy)
+    e0 = int(np.dot(a, a) + np.dot(b, b)) if N else 0          # sum |x|^2 * 2^(2 sx)
+    out = []
+    for k in ks:
+        k = int(k)
+        if k >= 0:
+            # sum (a + i b)[n+k] (c - i d)[n]
+            re = np.dot(a[k:], c[: N - k]) + np.dot(b[k:], d[: N - k])
+            im = np.dot(b[k:], c[: N - k]) - np.dot(a[k:], d[: N - k])
+        else:
+            # conj( sum (c + i d)[n+|k|] (a - i b)[n] )
+            j = -k
+            re = np.dot(c[j:], a[: N - j]) + np.dot(d[j:], b[: N - j])
+            im = -(np.dot(d[j:], a[: N - j]) - np.dot(c[j:], b[: N - j]))
+        re, im = int(re), int(im)
+        if norm == "coeff":
+            out.append(complex(float(Fraction(re * (1 << (2 * sx)), den * e0)), float(Fraction(im * (1 << (2 * sx)), den * e0))))
+            continue
+        dv = N if norm == "biased" else (N - abs(k) if norm == "unbiased" else 1)
+        out.append(complex(float(Fraction(re, den * dv)), float(Fraction(im, den * dv))))
+    return np.array(out, dtype=complex)
+
+
+def _near_y(nrng, x, mode, eps):
+    """y nearly equal to x (same length, float64 / complex128).  Returns (x, y): 'shift' / 'roll' replace x by a slowly
+    drifting record (the only kind of record whose delayed copy is nearly equal to it)"""
+    N = len(x)
+    cplx = np.iscomplexobj(x)
+
+    def g(n=N):
+        return nrng.standard_normal(n) + (1j * nrng.standard_normal(n) if cplx else 0)
+
+    if mode == "gain":
+        return x, x * (1 + eps)
+    if mode == "gainv":
+        return x, x * (1 + eps * nrng.uniform(-1, 1, N))
+    if mode == "relnoise":
+        return x, x + eps * np.abs(x) * g()
+    if mode == "absnoise":
+        return x, x + eps * float(np.sqrt(np.mean(np.abs(x) ** 2))) * g()
+    if mode == "f32":
+        return x, x.astype(np.complex64 if cplx else np.float32).astype(x.dtype)
+    if mode in ("ulp", "one"):
+        y = x.copy()
+        j = int(nrng.integers(0, N))
+        if y[j] == 0:
+            j = int(np.argmax(np.abs(y)))
+        if mode == "ulp":
+            y[j] = np.nextafter(y[j].real, np.inf) + (1j * y[j].imag if cplx else 0)
+        else:
+            y[j] = y[j] * (1 + eps)
+        return x, y
+    if mode == "phase":
+        return x, (x * np.exp(1j * eps) if cplx else x * (1 - eps))
+    if mode == "phasev":
+        u = nrng.uniform(-1, 1, N)
+        return x, (x * np.exp(1j * eps * u) if cplx else x * (1 - eps * np.abs(u)))
+    if mode in ("shift", "roll"):
+        c = (1.5 + float(nrng.integers(0, 4))) * (np.exp(1j * nrng.uniform(0, 6)) if cplx else 1.0)
+        x = c * (1 + eps * np.cumsum(nrng.uniform(-1, 1, N)))
+        x = np.asarray(x, dtype=complex if cplx else float)
+        y = np.roll(x, 1)
+        if mode == "shift":
+            y[0] = x[0]
+        return x, y
+    raise RuntimeError("harness: unknown near mode %r" % (mode,))
+
+
+def _near_obj(x, how):
+    """another object holding x's values"""
+    if how == "copy":
+        return np.array(x, copy=True)
+    if how == "view":
+        return x[:]
+    if how == "same":
+        return x
+    if how == "ro":
+        v = x.view()
+        v.flags.writeable = False
+        return v
+    if how == "strided":
+        buf = np.empty(3 * len(x), dtype=x.dtype)
+        buf[...] = -3.5e2
+        buf[::3] = x
+        return buf[::3]
+    if how == "neg":
+        return x[::-1].copy()[::-1]
+    if how == "cplx":
+        return x.astype(complex)
+    if how == "list":
+        return np.asarray(x).tolist()
+    if how == "f32":
+        y = x.astype(np.complex64 if np.iscomplexobj(x) else np.float32)
+        if not np.array_equal(y.astype(x.dtype), x):
+            raise RuntimeError("harness: 'f32' object of a record that is not exact in single precision")
+        return y
+    if how == "int":
+        y = np.asarray(x).real.astype(np.int64)
+        if np.iscomplexobj(x) or not np.array_equal(y.astype(float), x):
+            raise RuntimeError("harness: 'int' object of a record that is not integer valued")
+        return y
+    if how == "swapped":
+        return x.astype(x.dtype.newbyteorder("S"))
+    raise RuntimeError("harness: unknown object class %r" % (how,))
+
+
+def _near_args(p):
+    """(a, b, values of a, values of b): the two arguments of the call and the sequences of the definition"""
+    x = p["x"]
+    if p.get("yobj"):
+        y = _near_obj(x, p["yobj"])
+        yv = np.asarray(x)
+    else:
+        y = p["y"]
+        yv = np.asarray(y)
+    xv = np.asarray(x)
+    return (y, x, yv, xv) if p.get("swap") else (x, y, xv, yv)
+
+
+def _near_call(p):
+    sp = _sp()
+    a, b, av, bv = _near_args(p)
+    before = (_snap(a), _snap(b))
+    if p["fn"] == "xcorr":
+        out = sp.xcorr(a, b, maxlags=p["maxlags"], norm=p["norm"])
+    else:
+        out = sp.CORRELATION(a, b, maxlags=p["maxlags"], norm=p["norm"])
+    changed = [n for n, q, s in (("first", a, before[0]), ("second", b, before[1])) if _snap(q) != s]
+    return out, changed, av, bv
+
+
+def impl_near(p):
+    out, _, _, _ = _near_call(p)
+    if p["fn"] == "xcorr":
+        return [np.asarray(out[0]), np.asarray(out[1], dtype=float)]
+    return [np.asarray(out)]
+
+
+def model_near(p):
+    _, _, av, bv = _near_args(p)
+    N = len(av)
+    ml = N - 1 if p["maxlags"] is None else p["maxlags"]
+    return ("Q", proto.request(p["fn"], "Q", [ml, _nm(p["norm"])], [av, bv]))
+
+
+def post_near(p, iv, mv):
+    if p["fn"] != "xcorr":
+        return iv, mv
+    N = len(p["x"])
+    ml = N - 1 if p["maxlags"] is None else p["maxlags"]
+    return iv, [mv[0], np.arange(-ml, ml + 1, dtype=float)]
+
+
+def _near_desc(p):
+    return "%s(%s, norm=%s, N=%d, maxlags=%s, %s, y %s%s%s)" % (
+        "xcorr" if p["fn"] == "xcorr" else "CORRELATION", "y, x" if p.get("swap") else "x, y", p["norm"], len(p["x"]), p["maxlags"],
+        _cls(p["x"]), ("= x as another object [%s]" % p["yobj"]) if p.get("yobj") else "nearly equal to x [%s" % p.get("near"),
+        "" if p.get("yobj") else ", eps=%.0e]" % p.get("eps", 0.0),
+        "" if p.get("yobj") else ", max|x-y|/|y| = %.1e" % _near_dist(p))
+
+
+def _near_dist(p):
+    x = np.asarray(p["x"]).astype(complex)
+    y = np.asarray(p["y"]).astype(complex)
+    nz = np.abs(y) > 0
+    return float(np.max(np.abs(x - y)[nz] / np.abs(y)[nz])) if np.any(nz) else 0.0
+
+
+def oracle_near(p):
+    out_, changed, av, bv = _near_call(p)
+    N = len(av)
+    ml = N - 1 if p["maxlags"] is None else p["maxlags"]
+    norm = p["norm"]
+    two = p["fn"] == "xcorr"
+    msgs = ["%s modified its %s argument" % (_near_desc(p), c) for c in changed]
+    if two:
+        r, l = np.asarray(out_[0]), np.asarray(out_[1])
+        ks = list(range(-ml, ml + 1))
+        if list(l) != ks or r.ndim != 1 or len(r) != 2 * ml + 1:
+            return msgs + ["%s: lags are not -maxlags..maxlags: %s" % (_near_desc(p), l[:5])]
+    else:
+        r = np.asarray(out_)
+        ks = list(range(ml + 1))
+        if r.ndim != 1 or len(r) != ml + 1:
+            return msgs + ["%s returned %s lags" % (_near_desc(p), r.shape)]
+    if not np.all(np.isfinite(r.astype(complex))):
+        return msgs + ["%s returned non-finite values" % _near_desc(p)]
+    r = r.astype(complex)
+    e = _exact_lags(av, bv, ks, norm)
+    B, G = _lagscale(av, bv, ks, norm, 1.0)
+    long_ = two and N > NEAR_DIRECT_N
+    sc = np.maximum(B, G) if long_ else B
+    err = np.abs(r - e)
+    ok = sc > 0
+    if np.any(ok):
+        key = "xcorr_long" if long_ else p["fn"]
+        _NEAR_STATS[key] = max(_NEAR_STATS[key], float(np.max(err[ok] / sc[ok])))
+        _NEAR_STATS["n"] += int(np.sum(ok))
+    bad = err > TOL_NEAR * sc
+    if np.any(bad):
+        i = int(np.argmax(np.where(bad, err / np.maximum(sc, 1e-300), 0.0)))
+        hint = ""
+        if not p.get("yobj"):
+            # what the autocorrelation of either record would give at this lag
+            for nm_, u in (("x", p["x"]), ("y", p["y"])):
+                ea = _exact_lags(u, u, [ks[i]], norm)[0]
+                if abs(r[i] - ea) <= 1e-3 * err[i]:
+                    hint = "; the returned value is the AUTOcorrelation of %s at this lag (%r)" % (nm_, complex(ea))
+        msgs.append("%s: lag %d differs from its definition sum_n x[n+k] conj(y[n]) / divisor: got %r expected (exact arithmetic) %r, "
+                    "|diff| %.3e = %.2e of that lag's scale sum |x||y| / divisor%s (allowed %.0e)%s" % (
+                        _near_desc(p), ks[i], complex(r[i]), complex(e[i]), err[i], err[i] / max(sc[i], 1e-300),
+                        " [FFT floor ||x|| ||y|| / divisor]" if long_ else "", TOL_NEAR, hint))
+    if two and ml >= 1:
+        # asymmetry in the lag: A[k] = r[k] - conj(r[-k]), exactly 0 for an autocorrelation
+        pos, neg = np.arange(ml + 1, 2 * ml + 1), np.arange(ml - 1, -1, -1)
+        A, Ae = r[pos] - np.conj(r[neg]), e[pos] - np.conj(e[neg])
+        sA = sc[pos] + sc[neg]
+        dA = np.abs(A - Ae)
+        if np.all(sA > 0):
+            _NEAR_STATS["asym"] = max(_NEAR_STATS["asym"], float(np.max(dA / sA)))
+        badA = dA > TOL_NEAR * sA            # sA is the sum of two lag scales: 2 * TOL_NEAR on one of them
+        if np.any(badA):
+            i = int(np.argmax(np.where(badA, dA / np.maximum(sA, 1e-300), 0.0)))
+            msgs.append("%s: the asymmetry r[k] - conj(r[-k]) at k = %d is %r, its definition (exact arithmetic) gives %r "
+                        "(|diff| %.3e, %.2e of the two lags' scale; relative size of the defined asymmetry %.2e)" % (
+                            _near_desc(p), i + 1, complex(A[i]), complex(Ae[i]), dA[i], dA[i] / max(sA[i], 1e-300),
+                            abs(Ae[i]) / max(sA[i], 1e-300)))
+    if two:
+        # the one-sided function on the same arguments, non-negative lags (all up to N = 300, 61 of a longer record)
+        mc = ml if N <= 300 else min(ml, 60)
+        a, b, _, _ = _near_args(p)
+        rc = np.asarray(_sp().CORRELATION(a, b, maxlags=mc, norm=norm)).astype(complex)
+        if rc.shape == (mc + 1,) and np.all(np.isfinite(rc)):
+            d = np.abs(r[ml: ml + mc + 1] - rc)
+            s2 = sc[ml: ml + mc + 1]
+            if np.all(s2 > 0):
+                _NEAR_STATS["xc"] = max(_NEAR_STATS["xc"], float(np.max(d / s2)))
+            if np.any(d > 2 * TOL_NEAR * s2):
+                i = int(np.argmax(d / np.maximum(s2, 1e-300)))
+                msgs.append("%s and CORRELATION on the same arguments disagree at lag %d: %r vs %r (|diff| %.3e, %.2e of that lag's scale)" % (
+                    _near_desc(p), i, complex(r[ml + i]), complex(rc[i]), d[i], d[i] / max(s2[i], 1e-300)))
+        else:
+            msgs.append("%s: CORRELATION on the same arguments returned shape %s / non-finite values" % (_near_desc(p), rc.shape))
+    if p.get("yobj") and norm == "coeff" and abs(r[ml if two else 0] - 1) > 1e-12:
+        msgs.append("%s: coeff autocorrelation is not 1 at lag 0" % _near_desc(p))
+    return msgs
+
+
+def _near_key(p):
+    x = np.asarray(p["x"])
+    y = np.asarray(p["y"]) if p.get("y") is not None else np.zeros(0)
+    return "near|%s|%d|%s|%s|%s|%s|%s|%s|%s|%d|%d" % (p["fn"], len(x), x.dtype.str, p["norm"], p["maxlags"], p.get("near"), p.get("eps"),
+                                                     p.get("yobj"), int(bool(p.get("swap"))), hash(x.tobytes()) & 0xFFFFFF,
+                                                     hash(y.tobytes()) & 0xFFFFFF)
+
+
+def _near_tags(p):
+    x = np.asarray(p["x"])
+    N = len(x)
+    t = ["near", "near:" + p["fn"], "near:norm:%s" % p["norm"], "near:complex" if np.iscomplexobj(x) else "near:real",
+         "near:order:" + ("y,x" if p.get("swap") else "x,y")]
+    if p.get("yobj"):
+        t += ["near:equal-values-other-object", "near:yobj:" + p["yobj"]]
+        if p["yobj"] in _SHARED:
+            t.append("near:y-shares-memory-with-x")
+    else:
+        t += ["near:mode:" + p["near"], "near:eps=%.0e" % p["eps"]]
+        d = _near_dist(p)
+        t.append("near:max|x-y|/|y|:" + ("0" if d == 0 else ("<=1e-12" if d <= 1e-12 else ("<=1e-9" if d <= 1e-9 else (
+            "<=1e-5" if d <= 1e-5 else ("<=1e-3" if d <= 1e-3 else ">1e-3"))))))
+        t.append("near:numpy.allclose(x,y,atol=0):%s" % bool(np.allclose(x, np.asarray(p["y"]), atol=0)))
+    ml = N - 1 if p["maxlags"] is None else p["maxlags"]
+    t.append("near:lags:" + ("all" if ml == N - 1 else ("0" if ml == 0 else "some")))
+    if N > NEAR_DIRECT_N:
+        t.append("near:long")
+    if p.get("gen"):
+        t.append("near:data:generic-doubles:" + p["gen"])
+    else:
+        t.append("near:data:dyadic")
+    return t
+
+
+KINDS["near"] = {"impl": impl_near, "model": model_near, "oracle": oracle_near, "post": post_near, "rtol": 1e-12, "atol": 1e-300,
+                 "key": _near_key, "tags": _near_tags, "nontrivial": _NT}
+# records beyond the exact model's reach (its lag sums on 53-bit numerators): exact-arithmetic definition (oracle) only
+KINDS["near_o"] = {"oracle": oracle_near, "key": _near_key, "tags": _near_tags, "nontrivial": _NT}
+# the degenerate-record variants of the runner rewrite x only: the pair would no longer be a nearly equal one
+NO_DEGEN = {"near", "near_o"}
+NEAR_MODEL_N = 300
+
+if __import__("os").environ.get("VERIF_C09_STATS"):
+    import atexit
+    atexit.register(lambda: print("C09 near pairs: %(n)d lag comparisons, worst ratio CORRELATION %(corr).3e, xcorr %(xcorr).3e, "
+                                  "xcorr long (of G) %(xcorr_long).3e, asymmetry %(asym).3e, xcorr vs CORRELATION %(xc).3e" % _NEAR_STATS))
+
+
+def _near_cases(nrng, tier):
+    thorough = tier == "thorough"
+    maxN = 16 if not thorough else 40
+    n = 231 if not thorough else 770
+    longs = [64, 129, 256, 300, 513, 1000]
+    o = int(nrng.integers(0, 11))
+    for i in range(n):
+        # mode i mod 11, eps ((i div 11) + offset) mod 11, function i mod 3, norm i mod 4 ('coeff' is for autocorrelations),
+        # order of the arguments (i div 2) mod 2: independent moduli
+        mode = NEAR_MODES[i % 11]
+        eps = NEAR_EPS[(i // 11 + o) % 11]
+        fn = ("xcorr", "corr", "xcorr")[i % 3]
+        norm = ["biased", "unbiased", None, "biased"][i % 4]
+        cplx = bool(nrng.integers(0, 2))
+        long_ = i % 10 == 9
+        N = longs[(i // 10) % 6] if long_ else int(nrng.integers(2, maxN + 1))
+        if mode == "f32" or (i // 3) % 2:
+            gk = GENERIC[int(nrng.integers(0, 4))]
+            x, _ = gen_data(nrng, N, cplx, kind=gk, exact=False)
+            x = np.asarray(x, dtype=complex if cplx else float)
+        else:
+            gk = None
+            x = _data(nrng, N, cplx, int(nrng.integers(0, 5)))
+        x, y = _near_y(nrng, x, mode, eps)
+        if mode in ("shift", "roll"):
+            gk = "drift"
+        if long_:
+            ml = [8, N - 1, None, N // 2][(i // 10) % 4] if fn == "xcorr" else int(nrng.integers(8, 25))
+        else:
+            ml = _pick_ml(nrng, N)
+        p = {"fn": fn, "x": x, "y": y, "norm": norm, "maxlags": ml, "near": mode, "eps": eps, "swap": bool((i // 2) % 2)}
+        if gk:
+            p["gen"] = gk
+        yield ("near" if N <= NEAR_MODEL_N else "near_o", p)
+    # equal values, another object
+    for i in range(66 if not thorough else 220):
+        how = NEAR_OBJ[i % 11]
+        fn = ("xcorr", "corr")[(i // 11) % 2]
+        norm = NORMS[(i + i // 11) % 4]
+        cplx = bool(nrng.integers(0, 2)) and how not in ("int", "cplx")
+        N = int(nrng.integers(2, maxN + 1)) if i % 6 else [64, 300][(i // 6) % 2]
+        gk = None
+        if how == "int":
+            x, _ = gen_data(nrng, N, False, kind="int")
+            x = np.asarray(x, dtype=float)
+        elif how == "f32" or i % 2:
+            x = _data(nrng, N, cplx, int(nrng.integers(0, 5)))            # dyadic: exact in single precision
+        else:
+            gk = GENERIC[int(nrng.integers(0, 4))]
+            x, _ = gen_data(nrng, N, cplx, kind=gk, exact=False)
+            x = np.asarray(x, dtype=complex if cplx else float)
+        ml = _pick_ml(nrng, N) if N <= 64 or fn == "xcorr" else 20
+        p = {"fn": fn, "x": x, "norm": norm, "maxlags": ml, "near": "equal", "yobj": how, "swap": bool((i // 3) % 2)}
+        if gk:
+            p["gen"] = gk
+        if how == "int":
+            p["variant"] = "as-generated"       # the runner's amplitude variants would leave no integer-valued record
+        yield ("near", p)
+
+
+def _seq_one(nrng, i, N, core, use_model=True, ymode=None):
     """one history.  i indexes the first call's norm (i mod 4) and what the caller does to its result (i mod 7), the first
     pair of records ((i div 4) mod 4) and the relation of the two records ((i div 2) mod 4) independently.  core: the first
-    follower asks the same records again with the same or fewer lags, before anything else happens."""
+    follower asks the same records again with the same or fewer lags, before anything else happens.
+    ymode "near" (only on request): the second record is the first one with a per-sample gain mismatch of 1e-6 .. 1e-8
+    (a memo keyed by approximately compared values; the judge's 1e-10 resolves these)"""
     cplx = bool(nrng.integers(0, 2))
     x = _data(nrng, N, cplx, int(nrng.integers(0, 5)))
-    ymode = ["indep", "pert", "short", "mixed"][(i // 2) % 4]
+    near = ymode == "near"
+    ymode = ["indep", "pert", "short", "mixed"][(i // 2) % 4] if not near else "near"
     if ymode == "short" and N < 2:
         ymode = "indep"
-    if ymode == "pert":
+    if ymode == "near":
+        y = x * (1 + [1e-6, 1e-7, 1e-8][i % 3] * nrng.uniform(-1, 1, N))
+    elif ymode == "pert":
         # equal length, dtype, sum, energy and end samples: two interior samples exchanged (a memo keyed by summary values)
         y = x.copy()
         j1, j2 = (1, N - 2) if N >= 4 else (0, N - 1)
@@ -1179,6 +1623,16 @@ def _seq_cases(nrng, tier):
     for j, N in enumerate(longs):
         for c in range(2):
             yield _seq_one(nrng, o + 2 * j + c + (3 if c else 0), N, c == 0, use_model=N <= 600)
+
+
+def _seq_near_cases(nrng, tier):
+    """histories whose second record is NEARLY equal to the first (drawn after everything else: the histories above keep
+    their random streams)"""
+    thorough = tier == "thorough"
+    o = int(nrng.integers(0, 28))
+    for i in range(24 if not thorough else 72):
+        N = int(nrng.integers(2, (16 if not thorough else 40) + 1)) if i % 8 else [64, 300][(i // 8) % 2]
+        yield _seq_one(nrng, o + i, N, i % 2 == 0, ymode="near")
 
 
 def gen(rng, nrng, tier):
@@ -1433,3 +1887,7 @@ def _gen(rng, nrng, tier):
         yield from _blk_cases(nrng, [65536 + BLK_R[(rot + 3 * j) % 6] for j in range(2)], set(), with_mtx=False)
     # call sequences on the same data, the caller writing into what it was given (see MUTS above)
     yield from _seq_cases(nrng, tier)
+    # nearly equal pairs (y = x up to a gain / noise / rounding / one sample / a phase / a delay at relative level 1e-3 ..
+    # 1e-12) and equal-valued pairs held in different objects, against the exactly computed definition; histories on such pairs
+    yield from _near_cases(nrng, tier)
+    yield from _seq_near_cases(nrng, tier)
